@@ -17,6 +17,7 @@ META = dict(
     instance_obligations=['generated_tables_ok (Proofs/JsonFieldsInstance.v: table_ok Gen.JsonFields.classes = true by vm_compute, re-checked on the keyword tables regenerated from the current value_specs.py / class_schema.py / key_specs.py)'],
     level_text=('Theorems: from_json (to_json v) = v and from_json_str (to_json_str v) = v for every value outside the reserved encodings (each reservation has a refuted witness), with the JSON text layer '
                 'itself modelled and json.loads (json.dumps j) = j proved (for finite floats only their repr/float() round trip is assumed; nothing is assumed for values without finite floats); '
+                'to_json with hide_default_values / hide_frozen followed by from_json gives the value back for every option combination (members left out are exactly the class defaults; base.eq modelled as Python ==); '
                 'to_json is injective; for every class whose to_json goes through to_json_dict(exclude_default=True) the regenerated keyword table is checked and the drop-defaults / cls(kwargs) round trip is proved; '
                 'on the in-memory file system, for every history of save / write / append / rm / mkdirs / line-sequence operations over arbitrary path strings, reading a path returns exactly the text of the last '
                 'successful write to a path with the same components (refinement to a last-writer map; pure form over prefix-free path families where every save succeeds), and pg.load returns the last value saved; '
